@@ -904,6 +904,26 @@ func errFlow(c *Check, rule string, fns []*ssa.Function, repoOnly bool) int {
 			key := fmt.Sprintf("%s|%s", fnName(f), callee)
 			ev := errValueOf(call, ei)
 			if ev == nil {
+				// `_ = f.Close()` on a handle that was opened for reading: nothing
+				// can be lost by a failed close, and the discard is spelled out
+				if o := calleeObj(call); o != nil && o.Name() == "Close" && explicitBlank(f, call) {
+					recv := call.Call.Value
+					if !call.Call.IsInvoke() && len(call.Call.Args) > 0 {
+						recv = call.Call.Args[0]
+					}
+					readOnly := derives(recv, func(v ssa.Value) bool {
+						oc, ok := v.(*ssa.Call)
+						if !ok {
+							return false
+						}
+						oo := calleeObj(oc)
+						return oo != nil && oo.Name() == "Open"
+					}, nil)
+					if readOnly {
+						c.Okf(rule, key, p.pos(call.Pos()), "the close error of a handle opened for reading is discarded explicitly")
+						return
+					}
+				}
 				c.Flagf(rule, key, p.pos(call.Pos()), "the error returned by %s is discarded", callee)
 				return
 			}
